@@ -342,6 +342,35 @@ def pipe_rule(ctx, r):
         else:
             r.bad(key, "when the consumer closes the pipe, %s returns Ok(matched so far): if nothing had matched before the "
                   "write failed the process exits with status 1 instead of 0" % f.path, fn=f, loc=c.loc, construct="pipe-status")
+    # (status, parallel) the worker's only answer on the pipe edge is WalkState::Quit, the same as for --quiet; unless
+    # it also records the event in shared state that search_parallel reads back, the result is `matched so far`
+    for f, c, label in todo:
+        if not f.path.startswith("rg::search_parallel::"):
+            continue
+        outer = facts.fn("rg::search_parallel")
+        STORE = "core::sync::atomic::Atomic::store"
+        LOAD = "core::sync::atomic::Atomic::load"
+        hdrs = loop_headers(f)
+        stored = []
+        for bb, te, fe, e in pipe_switches(f):
+            after = C.reach(f, [te[1]], stop_blocks=hdrs)
+            stored += [x for x in f.calls() if x.bb in after and x.path == STORE]
+        ebo = ExprBuilder(outer)
+        loads = cond_switches(outer, lambda e: is_call(e, LOAD), ebo)
+        reads_back = False
+        for bb, te, fe, e in loads:
+            s_ = Sccp(outer, stop_blocks=loop_headers(outer)).run([(te[1], {})])
+            vals = set()
+            for v_ in s_.ret_values.values():
+                vals |= set(value_set(v_)) if v_ is not None else {None}
+            if vals and all(v_ is not None and (v_[1] == "Err" or v_ == V("Ok", I(1))) for v_ in vals):
+                reads_back = True
+        if stored and reads_back:
+            r.ok("status|search_parallel", "pipe edge records the event; search_parallel answers Err / Ok(true) when it is set", fn=f)
+        else:
+            r.bad("status|search_parallel", "when the consumer closes the pipe a worker only returns WalkState::Quit: search_parallel "
+                  "then returns `matched so far`, and exits with 1 if what was printed came from files without a match "
+                  "(--passthru, --count --include-zero)", fn=f, loc=c.loc, construct="pipe-status")
     # (kind) an error coming out of search_reader may be the printer's BrokenPipe: a wrapper must keep its kind
     nwrap = 0
     for fn_ in facts.fns_in("rg::search::SearchWorker::"):
